@@ -176,6 +176,11 @@ theorem completion_reads_slot (F : Facts) (s s' : Sys) (i : Nat) (sl : Nat)
 theorem loser_net_zero : (SourceFacts.loserNodeComp : Int) - 1 - 1 = 0 ∧ (SourceFacts.loserTokenComp : Int) - 1 = 0 := by
   decide
 
+/-- **instantiation**: the source installs a candidate only into an empty slot (`if slot.is_none()
+    { *slot = Some(elem); } else { … }`), and the only other assignment to a slot is the teardown's
+    `*slot = None` — the model's `install` (enabled on an empty slot only) is the code's -/
+theorem slot_protocol_facts : SourceFacts.slotInstallOnlyIfEmpty = true ∧ SourceFacts.slotAssignments = 2 := by decide
+
 /-! ### non-vacuity: two threads race for slot 0; thread 1 loses; both end with the same element -/
 def exF : Facts := ⟨2, 1⟩
 def exRun : Option Sys := do
